@@ -205,7 +205,8 @@ Proof.
   intros Hv bs. unfold legacy_output. apply normal_bind; [apply ce_array_normal|]. intros [len r0].
   apply normal_bind; [apply addr_deserialize_normal|]. intros [a r1].
   apply normal_bind; [apply Hv|]. intros [v r2].
-  apply normal_bind; [apply third_element_normal|]. intros [h r3].
+  cbv iota. apply normal_bind; [destruct (match len with Arg n => 2 <? n | Indef => true end); [apply third_element_normal|exact I]|]. intros [h r3].
+  apply normal_bind; [destruct len as [n|]; [destruct (n =? _); exact I|exact I]|]. intros _.
   destruct len; [exact I|]. destruct r3 as [|c t]; [exact I|]. destruct (c =? 255); exact I.
 Qed.
 
@@ -481,7 +482,8 @@ Proof.
   unfold legacy_output. apply refines_bind; [apply refines_refl|]. intros [len r0].
   apply refines_bind; [apply addr_deserialize_refines|]. intros [a r1].
   apply refines_bind; [apply refines_refl|]. intros [v r2].
-  apply refines_bind; [apply third_element_refines|]. intros [h r3]. apply refines_refl.
+  cbv iota. apply refines_bind; [destruct (match len with Arg n => 2 <? n | Indef => true end); [apply third_element_refines|apply refines_refl]|].
+  intros [h r3]. apply refines_refl.
 Qed.
 
 Lemma read_bounded_bytes_refines l bs : refines (read_bounded_bytes (Some l) bs) (read_bounded_bytes None bs).
